@@ -664,6 +664,54 @@ func c15SigSubstAlias(ds []*c15Decl) bool {
 	return false
 }
 
+// C15-triple-glob-overrides-inherited: a board-wide glob `***.A: v` and an explicit declaration of the same
+// attribute A (shape or style.stroke) on an object: in the base the explicit value wins, in its
+// scenarios/steps the glob is applied again and overrides the inherited explicit value.
+func c15SigTripleGlobOverrides(ds []*c15Decl) bool {
+	globAttr := map[string]bool{}
+	explicit := map[string]bool{}
+	var scan func(ds []*c15Decl, inObj bool)
+	scan = func(ds []*c15Decl, inObj bool) {
+		for _, d := range ds {
+			switch d.Kind {
+			case "glob":
+				if strings.HasPrefix(d.Glob, "***.") {
+					a := strings.SplitN(strings.TrimPrefix(d.Glob, "***."), ":", 2)[0]
+					globAttr[a] = true
+				}
+			case "key":
+				if len(d.Path) > 0 && d.Path[0] != "classes" && d.Path[0] != "vars" {
+					p := strings.Join(d.Path, ".")
+					for _, a := range []string{"shape", "style.stroke", "style.fill", "style.opacity"} {
+						if (inObj && p == a) || strings.HasSuffix(p, "."+a) {
+							explicit[a] = true
+						}
+						if strings.HasPrefix(a, "style.") && (p == "style" && inObj || strings.HasSuffix(p, ".style")) {
+							for _, c := range d.Body {
+								if c.Kind == "key" && strings.Join(c.Path, ".") == strings.TrimPrefix(a, "style.") {
+									explicit[a] = true
+								}
+							}
+						}
+					}
+					scan(d.Body, true)
+				}
+			case "boards":
+				for _, b := range d.Boards {
+					scan(b.Body, false)
+				}
+			}
+		}
+	}
+	scan(ds, false)
+	for a := range globAttr {
+		if explicit[a] {
+			return true
+		}
+	}
+	return false
+}
+
 // C15-layer-scenario-classes: a layer with scenarios or steps of its own, below a board that declares
 // classes: the layer receives the classes of its base only when the whole compile ends, after its
 // scenarios/steps took their copy of it.
@@ -904,6 +952,12 @@ func (g *c15G) stmt(env *c15Env) []*c15Decl {
 		}
 	case k < 50: // delete
 		p := g.pickObj(env)
+		if g.ext {
+			// a glob is not applied again to an object that was deleted and re-created (its applied-set
+			// remembers the name): deletions stay in the core class, which the model covers
+			env.addObj(p)
+			return []*c15Decl{g.key(p+".style.fill", g.lit(g.r.Pick(c15Colors)), nil, false)}
+		}
 		switch g.r.Intn(5) {
 		case 0:
 			return []*c15Decl{{Kind: "null", Path: strings.Split(p+".style.fill", ".")}}
@@ -952,7 +1006,11 @@ func (g *c15G) stmt(env *c15Env) []*c15Decl {
 			idx = g.r.Intn(3)
 		}
 		d := &c15Decl{Src: strings.Split(ed[0], "."), Dst: strings.Split(ed[1], "."), Idx: idx}
-		switch g.r.Intn(5) {
+		pick := g.r.Intn(5)
+		if g.ext && pick == 0 {
+			pick = 1
+		}
+		switch pick {
 		case 0:
 			d.Kind = "edgenull"
 			// the generator does not create a connection with the same ends after a deletion (the IR
@@ -1036,7 +1094,10 @@ func (g *c15G) stmt(env *c15Env) []*c15Decl {
 		}
 		if !g.noTriple {
 			// board-wide globs reach the boards declared before them too: only before the first board
-			opts = append(opts, "***.style.stroke: "+g.r.Pick(c15Colors), "***.shape: circle")
+			opts = append(opts, "***.style.stroke: "+g.r.Pick(c15Colors), "***.style.stroke: "+g.r.Pick(c15Colors))
+			if g.r.Chance(0.15) {
+				opts = append(opts, "***.shape: circle") // known finding when an object also sets its shape
+			}
 		}
 		gl := g.r.Pick(opts)
 		return []*c15Decl{{Kind: "glob", Glob: gl}}
@@ -1331,6 +1392,9 @@ func c15Case(ds []*c15Decl, class string, ext bool, r *Rng) Case {
 	if c15SigLayerScenarioClasses(ds) {
 		cs.KF = append(cs.KF, "C15-layer-scenario-classes")
 	}
+	if c15SigTripleGlobOverrides(ds) {
+		cs.KF = append(cs.KF, "C15-triple-glob-overrides-inherited")
+	}
 	return cs
 }
 
@@ -1339,6 +1403,20 @@ func c15Gen(r *Rng, tier string, n int) []Case {
 	g0 := &c15G{r: r}
 	for _, p := range c15Corpus(g0) {
 		out = append(out, c15Case(p, "corpus", false, r.Fork()))
+	}
+	// extended corpus (globs): board-wide globs reach layers; KNOWN FINDING: they override an inherited
+	// explicit attribute in scenarios
+	bd := func(kind, name string, body ...*c15Decl) *c15Decl {
+		return &c15Decl{Kind: "boards", BKind: kind, Boards: []*c15Board{{Name: name, Body: body}}}
+	}
+	for _, p := range [][]*c15Decl{
+		{{Kind: "glob", Glob: "***.style.stroke: red"}, {Kind: "glob", Glob: "*.style.fill: blue"}, g0.key("x", nil, nil, false),
+			bd("layers", "s1", g0.key("q", nil, nil, false)), bd("scenarios", "s2", g0.key("z", nil, nil, false)),
+			bd("steps", "t1", g0.key("p", nil, nil, false))},
+		{{Kind: "glob", Glob: "***.shape: circle"}, g0.key("d.shape", g0.lit("diamond"), nil, false),
+			bd("scenarios", "s1", g0.key("x", nil, nil, false))},
+	} {
+		out = append(out, c15Case(p, "corpus-globs", true, r.Fork()))
 	}
 	for i := 0; i < n; i++ {
 		rr := r.Fork()
